@@ -7,6 +7,9 @@ CONSTANTS
   RawLen = 0
   Depths = {3, 256, 257}
   Ladders = {3, 24}
+  MacroCloses = {300}
+  SnipDeeps = {200}
+  FileChains = {1050, 1200, 4150}
   Devs = {}
 INVARIANTS RowAndModel
 CHECK_DEADLOCK FALSE
